@@ -64,7 +64,7 @@ def run(ctx):
     ctx.lean_prove(THEOREMS)
     if not ctx.build_drv():
         return
-    if not ctx.go_build(pkg="c03"):
+    if not ctx.go_build(pkg="c03", out_name="c05"):
         return
     ctx.diff_stream("reconn", ctx.n(1500, 40000), oracle=c03check.oracle)
     g = os.path.join(ctx.work, "reconn.gen.ops")
